@@ -545,11 +545,14 @@ class TimeParameterType(ParameterType, metaclass=ABCMeta):
             scale = [c.coefficient for c in coefficients if c.exponent == 1]
             offset = [c.coefficient for c in coefficients if c.exponent == 0]
 
-            if scale:
+            # The scale and offset attributes can only express scale * x (+ offset), and they replace the calibrator
+            # of the data encoding when the document is read. Any other polynomial (no first order term, or higher
+            # order terms) is carried by the DefaultCalibrator of the data encoding alone.
+            if scale and all(c.exponent in (0, 1) for c in coefficients):
                 encoding_attrib["scale"] = str(scale[0])
 
-            if offset:
-                encoding_attrib["offset"] = str(offset[0])
+                if offset:
+                    encoding_attrib["offset"] = str(offset[0])
 
         element.append(
             elmaker.Encoding(
